@@ -266,7 +266,7 @@ func c08Build(e *driver.Env) {
 func c08Online(st *c08State, ri, v int) {
 	e := st.e
 	p := e.Plan
-	si := v/1000 - 1
+	si := v / 1000
 	idx := v % 1000
 	if si < 0 || si >= len(p.Senders) || idx >= len(p.Senders[si]) || p.Senders[si][idx] != v {
 		e.Failf("C08.f", "received a value that was never sent", "received %d; senders %v", v, p.Senders)
@@ -297,7 +297,7 @@ func c08Online(st *c08State, ri, v int) {
 		// single receiver: values of one sender arrive in send order without gaps
 		cnt := 0
 		for _, x := range st.recvAll[:len(st.recvAll)-1] {
-			if x/1000-1 == si {
+			if x/1000 == si {
 				cnt++
 			}
 		}
